@@ -179,7 +179,8 @@ fn cli(binary: &str, cases_path: &str, out_path: &str) {
         let mut runner = Runner::new();
         let mut st = PushState::new();
         PushParser::parse_program(&mut st, &runner.iset, &text);
-        PushParser::copy_to_code_stack(&mut st);
+        // the library's way of loading a program (PushInterpreter::run); the front end has its own copy routine
+        PushInterpreter::copy_to_code_stack(&mut st);
         st.name_bindings.insert("BIN".to_string(), Item::id(binary.to_string()));
         let cache = runner.iset.cache();
         let mut lib_steps: Vec<Value> = vec![];
